@@ -5,6 +5,7 @@ from pyvc.theory import *
 from pyvc.contract import *
 from .graph_spec import A, FA
 from .lang_spec import *
+from pyvc.state import heap_closed
 
 ML = 'maltoolbox.language.languagegraph'
 CONTAINER_ARRAYS = LIST_ARRAYS + DICT_ARRAYS + ('cls', 'own_obj')
@@ -166,7 +167,10 @@ def install_lg_queries(reg: Registry):
 
     # ---- LanguageGraphAsset.is_subasset_of (C15, C01)
     def req(c):
-        return [('ANC.def.%d' % i, f) for i, f in enumerate(anc_axioms(c.old))] + [('wf_lang.single-acyclic', wf_inheritance(c.old))]
+        hs = spec_heap(c.old.schema)
+        return [('ANC.def', z3.And(*anc_axioms(hs))), ('wf_lang.inheritance', wf_inheritance(hs)), ('HS.agree', agree(hs, c.old)),
+                ('HS.objects', z3.And(c.self >= 0, c.self < hs.alloc, c.target_asset >= 0, c.target_asset < hs.alloc)),
+                ('HS.closed', z3.And(*heap_closed(hs)))]
 
     def inv(c: LCtx):
         o, h = c.old, c.h
@@ -179,7 +183,7 @@ def install_lg_queries(reg: Registry):
             ('old-lists', z3.And(FA([l], z3.Implies(l < o.alloc, h.bagof(l) == o.bagof(l)), [h.bagof(l)]),
                                  FA([l], z3.Implies(l < o.alloc, h.len(l) == o.len(l)), [h.len(l)]))),
             ('fields-same', z3.And(h.arr['f_super_assets'] == o.arr['f_super_assets'])),
-            ('stack-elems', FA([v], z3.Implies(h.bag(S, v) > 0, z3.And(is_VRef(v), ANC(c.self, v_a(v)))), [h.bag(S, v)])),
+            ('stack-elems', FA([v], z3.Implies(h.bag(S, v) > 0, z3.And(is_VRef(v), ANC(c.self, v_a(v)), v_a(v) >= 0, v_a(v) < spec_heap(o.schema).alloc)), [h.bag(S, v)])),
             ('target-still-reachable', z3.Implies(ANC(c.self, c.target_asset),
                                                   z3.Exists([s], z3.And(h.cnt(S, s) > 0, ANC(s, c.target_asset))))),
             ('at-most-one', z3.And(h.len(S) <= 1, h.len(S) >= 0)),
